@@ -34,7 +34,7 @@ PROPS = {
                 contract=True, title="no premature destruction"),
     "C02": dict(streams=["corpus", "contract", "weakheavy", "exh2", "script", "api", "giveup"], fields=["D", "F", "E"], oracles=["O2"],
                 contract=True, title="values die at most once; no access after release", weakraw="O2"),
-    "C03": dict(streams=["corpus", "contract", "exh2", "exh3s", "api"], fields=["D"], oracles=["O3"], contract=True,
+    "C03": dict(streams=["corpus", "contract", "exh2", "exh3s", "api", "shallow"], fields=["D"], oracles=["O3"], contract=True,
                 title="orphaned group destroyed in full, synchronously"),
     "C04": dict(streams=["corpus", "contract", "weakheavy", "api", "exh2"], fields=["F", "heapobjs"], oracles=["O4"],
                 contract=True, title="destroyed objects return all memory", leakcheck=True),
